@@ -55,4 +55,73 @@ theorem eok_frame {s s' : St} {fd : Int}
     | exact h
     | trivial
 
+set_option linter.unusedSimpArgs false
+
+/-- closes `EOk s' fd` after the step equation `hst` has been unfolded: `x` = the descriptor the
+    event indexes -/
+syntax "e_case " term : tactic
+set_option hygiene false in
+macro_rules
+  | `(tactic| e_case $x) => `(tactic|
+    (try simp only [step] at hst
+     repeat' split at hst
+     all_goals (first
+       | (simp at hst; done)
+       | (simp at hst; subst hst
+          by_cases hq : fd = $x
+          · subst hq
+            first
+              | (simp_all [EOk, EOkC, Armed, updI]; done)
+              | (simp only [EOk, Armed] at *; simp only [startSec]
+                 repeat' split
+                 all_goals (simp_all [EOkC, updI, dir_ne_zero]))
+              | (simp only [EOk, Armed] at *
+                 generalize hsc : s.sec _ = sc at *
+                 cases sc <;> simp_all [EOkC, updI])
+          · exact eok_frame hfd (by simp [updI, hq]) (by simp [updI, hq]) (by simp [updI, hq]) (by simp [Armed, updI, hq])))))
+
+set_option maxRecDepth 4000 in
+theorem einv_step {D : Decisions} (hD : D.ctlChecked = true) {s s' : St} {e : Ev} (h : EInv s)
+    (hst : step D s e = some s') : EInv s' := by
+  intro fd
+  have hfd := h fd
+  cases e with
+  | call f c => e_case (0 : Int)
+  | ret f op r => e_case (0 : Int)
+  | fLoad f x v => e_case x
+  | fOr f x old m => e_case x
+  | fAnd f x old m => e_case x
+  | fStore f x v => have hx := h x; e_case x
+  | sys f x r => have hx := h x; e_case x
+  | sys2 f a b r => e_case a
+  | sysCtl f x r => e_case x
+  | lkTake a x old => e_case x
+  | lkPoll a x v => have hx := h x; e_case x
+  | ulLoad a x v => e_case x
+  | ulStore a x v => have hx := h x; e_case x
+  | rEvents a x v => have hx := h x; e_case x
+  | wEvents a x v => have hx := h x; e_case x
+  | rAdded a x v => have hx := h x; e_case x
+  | wAdded a x v => have hx := h x; e_case x
+  | rBoth a x ev ad => have hx := h x; e_case x
+  | ctl a op x mask okk => have hx := h x; e_case x
+  | rWaiters a x hd => have hx := h x; e_case x
+  | wWaiters a x hd => have hx := h x; e_case x
+  | rScr a g v =>
+    cases hc : s.cur a with
+    | none => simp only [step, hc] at hst; e_case (0 : Int)
+    | some x => have hx := h x; simp only [step, hc] at hst; e_case x
+  | wScr a g v =>
+    cases hc : s.cur a with
+    | none => simp [step, hc] at hst
+    | some x => have hx := h x; simp only [step, hc] at hst; e_case x
+  | wSt a g v =>
+    cases hc : s.cur a with
+    | none => simp [step, hc] at hst
+    | some x => have hx := h x; simp only [step, hc] at hst; e_case x
+
+theorem einv_of_run {D : Decisions} (hD : D.ctlChecked = true) {m : Int} {es : List Ev} {s : St}
+    (h : (sys D m).run es = some s) : EInv s :=
+  Sys.inv_of_run (sys D m) EInv (einv_init m) (fun _ _ _ hi hs => einv_step hD hi hs) h
+
 end LibfiberVerif.IoShim
